@@ -71,7 +71,7 @@ func c16Scripts(tier string) []uciParams {
 func init() {
 	Defs["C16"] = &Def{
 		ID:   "C16",
-		Rule: "real uci.Driver + engine + iterative-deepening search on a K v K root (3 legal moves) driven by a GUI thread; scripts `position P1; go X; <w>; isready; quit|EOF` for interrupting words w of length <= 2 over {isready, stop, position P2 (other side to move, so a bestmove identifies its search), go, ucinewgame, quit, unknown, malformed go, malformed position, empty line}; the first interrupting command is released at scheduler step k for a grid of k over the whole uninterrupted run (injection instant enumerated), timers likewise, and for superseding commands each engine goroutine (search, quit-cancel, forwarder, ...) in turn held back for 50/200 steps after the release (slow-thread dimension); every schedule within the deviation bound (delay bounding: every departure from the deterministic scheduler costs 1). Oracle on the event log of each complete execution: no panic in any thread; loop never parked inside a handler, GUI never blocked on a live driver; every received isready answered; no bestmove before a go, two for one go, or illegal for the position the go was given for (= answer of a superseded search); after quit/EOF output channel and driver closed. Horizon-cut executions are inconclusive, never violations. distinct_nontrivial = distinct event-log classes among executions where two threads touched a common object",
+		Rule: "real uci.Driver + engine + iterative-deepening search on a K v K root (3 legal moves) driven by a GUI thread; scripts `position P1; go X; <w>; isready; quit|EOF` for interrupting words w of length <= 2 over {isready, stop, position P2 (other side to move, so a bestmove identifies its search), go, ucinewgame, quit, unknown, malformed go, malformed position, empty line}; the first interrupting command is released (a) as a lazy thread: at ANY scheduling point of the run for one deviation, timers likewise, and (b) at scheduler step k for a grid of k over the whole uninterrupted run (injection instant enumerated, leaving the deviations for preemptions), timers likewise, and for superseding commands each engine goroutine (search, quit-cancel, forwarder, ...) in turn held back for 50/200 steps after the release (slow-thread dimension); every schedule within the deviation bound (delay bounding: every departure from the deterministic scheduler costs 1). Oracle on the event log of each complete execution: no panic in any thread; loop never parked inside a handler, GUI never blocked on a live driver; every received isready answered; no bestmove before a go, two for one go, or illegal for the position the go was given for (= answer of a superseded search); after quit/EOF output channel and driver closed. Horizon-cut executions are inconclusive, never violations. distinct_nontrivial = distinct event-log classes among executions where two threads touched a common object",
 		Gen: func(tier string) []explore.Scenario {
 			var out []explore.Scenario
 			for _, p := range c16Scripts(tier) {
@@ -86,6 +86,11 @@ func init() {
 				}
 				script := strings.Join(p.Script, ";")
 				superseding := strings.Contains(script, "!position") || strings.Contains(script, "!go ") || strings.Contains(script, "!ucinewgame") || strings.Contains(script, "!quit") || strings.Contains(script, "!stop")
+				// the interrupting command (and every timer) as a lazy thread: it arrives at ANY scheduling
+				// point the explorer chooses, for one deviation
+				lz := p
+				lz.Release, lz.Timer = -1, -1
+				out = append(out, uciScenario(lz))
 				for k := 0; k <= max; k += stride {
 					q := p
 					q.Release = k
